@@ -6,7 +6,7 @@ Open Scope string_scope.
 Open Scope list_scope.
 
 (* ------------------------------------------------------------------ crash traces *)
-(* What a build that is killed has done: a prefix of its plan, the last write possibly torn
+(* What a build that is killed has done: a prefix of its plan_core, the last write possibly torn
    (the file was created/truncated and holds arbitrary bytes [c'] instead of the full text). *)
 Inductive crash_trace (pl : list op) : list op -> Prop :=
 | ct_prefix : forall k, crash_trace pl (firstn k pl)
@@ -18,7 +18,7 @@ Proof. intros pl. rewrite <- (firstn_all pl) at 2. constructor. Qed.
 Lemma firstn_in : forall {A} k (l : list A) x, In x (firstn k l) -> In x l.
 Proof. intros A k l x H. rewrite <- (firstn_skipn k l). apply in_or_app. auto. Qed.
 
-(* every mutation of a crash trace is a mutation of the plan, up to the content of a write *)
+(* every mutation of a crash trace is a mutation of the plan_core, up to the content of a write *)
 Lemma crash_trace_in : forall pl ops x,
   crash_trace pl ops -> In x ops ->
   exists y, In y pl /\ op_path y = op_path x /\ is_mkdir y = is_mkdir x.
@@ -62,11 +62,11 @@ Proof.
   - rewrite H. unfold terr_b. rewrite path_eqb_refl. rewrite orb_true_r. reflexivity.
 Qed.
 
-Lemma plan_op_ok : forall v c h out fault t x, In x (plan v c h out fault t) -> op_ok c h x = true.
+Lemma plan_op_ok : forall v c h out fault t x, In x (plan_core v c h out fault t) -> op_ok c h x = true.
 Proof. intros. eapply shape_op_ok. eapply run_shape. eauto. Qed.
 
 Lemma crash_op_ok : forall v c h out fault t ops x,
-  crash_trace (plan v c h out fault t) ops -> In x ops -> op_ok c h x = true.
+  crash_trace (plan_core v c h out fault t) ops -> In x ops -> op_ok c h x = true.
 Proof.
   intros v c h out fault t ops x Hc Hx. destruct (crash_trace_in _ _ _ Hc Hx) as (y & Hy & Hp & Hk).
   apply plan_op_ok in Hy. unfold op_ok in *. rewrite <- Hp, <- Hk. exact Hy.
@@ -76,7 +76,7 @@ Qed.
    failure, and every point at which the build may be killed (torn write included): a node that differs lies in
    the territory — or is the output directory / its data folder, which did not exist and now is a directory. *)
 Theorem territory : forall v c h out fault t ops t' p,
-  crash_trace (plan v c h out fault t) ops -> exec ops t = Some t' ->
+  crash_trace (plan_core v c h out fault t) ops -> exec ops t = Some t' ->
   node_at t' p <> node_at t p ->
   terr_b c h p = true \/ (anc_b p = true /\ node_at t p = None /\ node_at t' p = Some NDir).
 Proof.
@@ -133,9 +133,9 @@ Proof.
 Qed.
 
 Lemma plan_fixed_nonsuccess : forall v c h out fault t,
-  v_cert_early v = false -> (forall o, out <> Success o) -> plan v c h out fault t = [].
+  v_cert_early v = false -> (forall o, out <> Success o) -> plan_core v c h out fault t = [].
 Proof.
-  intros v c h out fault t Hv Hn. unfold plan, run. rewrite Hv. destruct out as [| | |o]; simpl; auto.
+  intros v c h out fault t Hv Hn. unfold plan_core, run_core. rewrite Hv. destruct out as [| | |o]; simpl; auto.
   - destruct (is_dir t (ns_dir c)); [destruct (is_file t (cert_path c))|]; reflexivity.
   - destruct (is_dir t (ns_dir c)); [destruct (is_file t (cert_path c))|]; reflexivity.
   - exfalso. eapply Hn; eauto.
@@ -147,7 +147,7 @@ Qed.
 Theorem statics_untouched : forall v c h out fault t ops t' p,
   sound v ->
   (forall o, out = Success o -> static_safe c h o = true) ->
-  crash_trace (plan v c h out fault t) ops -> exec ops t = Some t' ->
+  crash_trace (plan_core v c h out fault t) ops -> exec ops t = Some t' ->
   excepted h p = true -> node_at t' p = node_at t p.
 Proof.
   intros v c h out fault t ops t' p Hv Hs Hc He Hx. eapply exec_frame; eauto.
@@ -162,16 +162,16 @@ Qed.
    (unless the header is already rejected, which does not touch anything either). *)
 Theorem refusal : forall v c h out fault t,
   is_dir t (ns_dir c) = true -> is_file t (cert_path c) = false ->
-  run v c h out fault t = ([], if match out with FailHeader => true | _ => false end then RHeaderErr else RRefused).
+  run_core v c h out fault t = ([], if match out with FailHeader => true | _ => false end then RHeaderErr else RRefused).
 Proof.
-  intros v c h out fault t Hd Hf. unfold run. rewrite Hd, Hf. destruct out; reflexivity.
+  intros v c h out fault t Hd Hf. unfold run_core. rewrite Hd, Hf. destruct out; reflexivity.
 Qed.
 
 (* repaired behaviour: a compile that ends in a compilation error (header / lexer+parser / DataPack.build) performs
    no mutation at all *)
 Theorem failed_compile_noop : forall v c h out fault t,
   v_cert_early v = false ->
-  (forall o, out <> Success o) -> plan v c h out fault t = [] /\ exec (plan v c h out fault t) t = Some t.
+  (forall o, out <> Success o) -> plan_core v c h out fault t = [] /\ exec (plan_core v c h out fault t) t = Some t.
 Proof. intros. rewrite plan_fixed_nonsuccess; auto. Qed.
 
 (* [v_tags_early]: the write phase is handed the parsed tag values and cannot fail any more ... *)
@@ -210,13 +210,13 @@ Qed.
    tree exactly as it was. *)
 Theorem failed_build_noop : forall v c h out fault t,
   v_cert_early v = false -> v_tags_early v = true ->
-  failed (snd (run v c h out fault t)) = true ->
-  plan v c h out fault t = [] /\ exec (plan v c h out fault t) t = Some t.
+  failed (snd (run_core v c h out fault t)) = true ->
+  plan_core v c h out fault t = [] /\ exec (plan_core v c h out fault t) t = Some t.
 Proof.
   intros v c h out fault t Hc Ht Hf.
-  assert (E : plan v c h out fault t = []); [|rewrite E; auto].
+  assert (E : plan_core v c h out fault t = []); [|rewrite E; auto].
   destruct out as [| | |o]; try (apply plan_fixed_nonsuccess; [exact Hc|intros; discriminate]).
-  unfold plan, run in *. rewrite Hc in *. destruct (is_dir t (ns_dir c)).
+  unfold plan_core, run_core in *. rewrite Hc in *. destruct (is_dir t (ns_dir c)).
   - destruct (is_file t (cert_path c)); [|reflexivity]. apply build_failed_nil; auto.
   - cbn [run_ops app] in *. pose proof (build_failed_nil v c h o false fault t Ht) as Hn.
     destruct (build v c h o false fault t) as [ops r]. cbn [fst snd] in *. auto.
@@ -224,9 +224,9 @@ Qed.
 
 (* pinned behaviour: true only when the namespace folder already exists *)
 Theorem failed_compile_noop_pinned_partial : forall c h out fault t,
-  (forall o, out <> Success o) -> is_dir t (ns_dir c) = true -> plan pinned c h out fault t = [].
+  (forall o, out <> Success o) -> is_dir t (ns_dir c) = true -> plan_core pinned c h out fault t = [].
 Proof.
-  intros c h out fault t Hn Hd. unfold plan, run. rewrite Hd.
+  intros c h out fault t Hn Hd. unfold plan_core, run_core. rewrite Hd.
   destruct out as [| | |o]; simpl; auto; try (destruct (is_file t (cert_path c)); reflexivity).
   exfalso. eapply Hn; eauto.
 Qed.
@@ -239,7 +239,7 @@ Definition w_empty : fs := TDir [(".", TDir [])].
 (* pinned behaviour refutes it for a fresh namespace: jmc.txt appears although the compile failed *)
 Theorem failed_compile_noop_refuted_pinned :
   exists c h out t t', (forall o, out <> Success o) /\
-    exec (plan pinned c h out None t) t = Some t' /\ node_at t (cert_path c) = None /\
+    exec (plan_core pinned c h out None t) t = Some t' /\ node_at t (cert_path c) = None /\
     node_at t' (cert_path c) = Some (NFile (Raw (c_cert c))).
 Proof.
   exists w_cfg, w_hdr0, FailLex, w_empty. eexists. split; [intros; discriminate|].
@@ -254,7 +254,7 @@ Definition w_hdr_mc : hdr := mkHdr [["."; "data"; "minecraft"; "keep"]] [] None 
 
 Theorem static_minecraft_refuted_pinned :
   exists c h o t t' p, static_safe c h o = true /\ excepted h p = true /\
-    exec (plan pinned c h (Success o) None t) t = Some t' /\
+    exec (plan_core pinned c h (Success o) None t) t = Some t' /\
     node_at t p = Some (NFile (Raw "kept by hand")) /\ node_at t' p = None.
 Proof.
   exists w_cfg, w_hdr_mc, w_out, w_tree_mc. eexists. exists ["."; "data"; "minecraft"; "keep"; "m.txt"].
@@ -268,8 +268,8 @@ Definition w_tree_badtag : fs :=
           TDir [("load.json", TFile (Raw "{""values"": ["))])])])])])].
 
 Theorem tag_error_noop_refuted_fixed :
-  exists c h o t t', run fixed c h (Success o) None t = (plan fixed c h (Success o) None t, RTagErr) /\
-    exec (plan fixed c h (Success o) None t) t = Some t' /\
+  exists c h o t t', run_core fixed c h (Success o) None t = (plan_core fixed c h (Success o) None t, RTagErr) /\
+    exec (plan_core fixed c h (Success o) None t) t = Some t' /\
     node_at t (cert_path c) = None /\ node_at t' (cert_path c) <> None.
 Proof.
   exists w_cfg, w_hdr0, w_out, w_tree_badtag. eexists. vm_compute. repeat split. discriminate.
@@ -277,22 +277,22 @@ Qed.
 
 (* non-vacuity: a complete build of the repaired model executes, and does change the tree *)
 Example build_executes :
-  exists t', exec (plan fixed w_cfg w_hdr_mc (Success w_out) None w_tree_mc) w_tree_mc = Some t' /\
-    snd (run fixed w_cfg w_hdr_mc (Success w_out) None w_tree_mc) = RDone /\
+  exists t', exec (plan_core fixed w_cfg w_hdr_mc (Success w_out) None w_tree_mc) w_tree_mc = Some t' /\
+    snd (run_core fixed w_cfg w_hdr_mc (Success w_out) None w_tree_mc) = RDone /\
     node_at t' ["."; "data"; "ns"; "function"; "g.mcfunction"] = Some (NFile (Raw "say g")) /\
     node_at t' ["."; "data"; "minecraft"; "keep"; "m.txt"] = Some (NFile (Raw "kept by hand")).
 Proof. eexists. vm_compute. repeat split. Qed.
 
 (* the same tree and project under [hardened]: the error is reported, nothing is touched *)
 Example tag_error_noop_hardened :
-  run hardened w_cfg w_hdr0 (Success w_out) None w_tree_badtag = ([], RTagErr).
+  run_core hardened w_cfg w_hdr0 (Success w_out) None w_tree_badtag = ([], RTagErr).
 Proof. vm_compute. reflexivity. Qed.
 
 (* non-vacuity of [hardened]: the complete build executes; jmc.txt goes through jmc.txt.tmp, which is gone afterwards *)
 Example build_executes_hardened :
-  exists t', exec (plan hardened w_cfg w_hdr_mc (Success w_out) None w_tree_mc) w_tree_mc = Some t' /\
-    snd (run hardened w_cfg w_hdr_mc (Success w_out) None w_tree_mc) = RDone /\
-    In (Replace (cert_path w_cfg) (Raw "LOAD=__load__")) (plan hardened w_cfg w_hdr_mc (Success w_out) None w_tree_mc) /\
+  exists t', exec (plan_core hardened w_cfg w_hdr_mc (Success w_out) None w_tree_mc) w_tree_mc = Some t' /\
+    snd (run_core hardened w_cfg w_hdr_mc (Success w_out) None w_tree_mc) = RDone /\
+    In (Replace (cert_path w_cfg) (Raw "LOAD=__load__")) (plan_core hardened w_cfg w_hdr_mc (Success w_out) None w_tree_mc) /\
     node_at t' (cert_path w_cfg) = Some (NFile (Raw "LOAD=__load__")) /\ node_at t' (cert_tmp w_cfg) = None /\
     node_at t' ["."; "data"; "ns"; "function"; "g.mcfunction"] = Some (NFile (Raw "say g")) /\
     node_at t' ["."; "data"; "minecraft"; "keep"; "m.txt"] = Some (NFile (Raw "kept by hand")).
